@@ -1,5 +1,5 @@
 (** Type soundness of the reference semantics with respect to the checker's typing of expressions
-    ([Ast.etype], built on the generated table [cast_binary_op]): an expression that has a static
+    ([Ast.etype], built on the generated table [spec_binary_op]): an expression that has a static
     type never raises Type mismatch, and its value is of the kind (number / string) of that type,
     in every state whose variables hold values of their own kind. *)
 From Coq Require Import List ZArith Bool Floats.SpecFloat.
@@ -16,7 +16,7 @@ Definition is_rel (o : bop) : bool :=
   match o with Less | LessOrEqual | Equal | GreaterOrEqual | Greater | NotEqual => true | _ => false end.
 
 (** what the generated table admits *)
-Lemma cbo_kinds : forall a b o q, cast_binary_op a b o = Some q ->
+Lemma cbo_kinds : forall a b o q, spec_binary_op a b o = Some q ->
   (is_str_q a = false /\ is_str_q b = false /\ is_str_q q = false) \/
   (is_str_q a = true /\ is_str_q b = true /\ ((o = Plus /\ is_str_q q = true) \/ (is_rel o = true /\ is_str_q q = false))).
 Proof.
@@ -108,7 +108,7 @@ Lemma of_bool_num b : is_str (of_bool b) = false.
 Proof. destruct b; reflexivity. Qed.
 
 (** binary operators on operands of the kinds the table admits *)
-Lemma binop_sound : forall o a b qa qb q, cast_binary_op qa qb o = Some q ->
+Lemma binop_sound : forall o a b qa qb q, spec_binary_op qa qb o = Some q ->
   is_str a = is_str_q qa -> is_str b = is_str_q qb ->
   no_tm (binop o a b) /\ forall v, binop o a b = Ok v -> is_str v = is_str_q q.
 Proof.
